@@ -290,10 +290,9 @@ class ConcH:
         self.checked = []
         self.notes = []
 
-    def _get(self, name):
-        if name not in self.w:
-            raise AssumptionFailed(f"witness lacks {name}")
-        return self.w[name]
+    def _get(self, name, default=0):
+        # inputs declared after the failing obligation are not part of the witness: any value will do
+        return self.w.get(name, default)
 
     def real(self, name, float_atom=True):
         return float(Fraction(self._get(name)))
@@ -302,7 +301,7 @@ class ConcH:
         return [self.real(f"{prefix}{i}") for i in range(n)]
 
     def int(self, name, lo=None, hi=None):
-        v = int(self._get(name))
+        v = int(self._get(name, lo if lo is not None else (hi if hi is not None and hi < 0 else 0)))
         if (lo is not None and v < lo) or (hi is not None and v > hi):
             raise AssumptionFailed(name)
         return v
@@ -311,10 +310,10 @@ class ConcH:
         return [self.int(f"{prefix}{i}", lo, hi) for i in range(n)]
 
     def bool(self, name):
-        return bool(self._get(name))
+        return bool(self._get(name, False))
 
     def str(self, name, maxlen=None, alphabet=None):
-        return str(self._get(name))
+        return str(self._get(name, ""))
 
     def const(self, v):
         if isinstance(v, str):
@@ -760,7 +759,13 @@ def _trace_str(trace):
     return "".join("T" if t else "F" for t in trace)
 
 
+_PP = []
+
+
 def _short(c, n=400):
+    if not _PP:
+        z3.set_option(max_args=6, max_lines=8, max_depth=6, max_visited=120)
+        _PP.append(1)
     s = str(c).replace("\n", " ")
     s = " ".join(s.split())
     return s if len(s) <= n else s[:n] + "…"
